@@ -6,6 +6,8 @@
 (*   e = "A2"  in.a, in.b    comparison laws on a pair                     *)
 (*   e = "A3"  in.a, b, c    transitivity on a triple                      *)
 (*   e = "S"   in.s          string layer (symbol sequence)                *)
+(*   e = "P2"  in.s, in.t    comparison of two arbitrary strings           *)
+(*   e = "P3"  in.s, t, u    transitivity on three arbitrary strings       *)
 (* Addresses in outputs are abstracted back to (base, spelling) by the     *)
 (* harness table (injective); a string outside the table arrives as        *)
 (* [raw |-> "..."] and is equal only to itself.                            *)
@@ -43,7 +45,20 @@ VS(r) == LET viol == ViolS(r.in.s, r.out) IN
   Mk(r, viol, {D \in SUBSET Devs : LET m == ModelS(D, r.in.s) IN
                                      m = ProjS(r.out) /\ ViolS(r.in.s, m @@ [panics |-> <<>>]) = viol})
 
+\* arbitrary strings: the laws always; agreement with the model where it has a key
+VP2(r) == LET viol == ViolP2(r.out)
+              m == ModelP2(r.in.s, r.in.t)
+              mod == Modelled(r.in.s) /\ Modelled(r.in.t) IN
+  Mk(r, viol, IF (viol = {} /\ ~mod) \/ (m = ProjP2(r.out) /\ ViolP2(m) = viol) THEN {{}} ELSE {})
+VP3(r) == LET viol == ViolP3(r.out)
+              m == ModelP3(r.in.s, r.in.t, r.in.u)
+              mod == Modelled(r.in.s) /\ Modelled(r.in.t) /\ Modelled(r.in.u) IN
+  Mk(r, viol, IF (viol = {} /\ ~mod) \/ ([eq12 |-> r.out.eq12, eq23 |-> r.out.eq23, eq13 |-> r.out.eq13] = m
+                                         /\ ViolP3(m) = viol) THEN {{}} ELSE {})
+
 Verdict(r) == CASE r.e = "A1" -> V1(r)
+                [] r.e = "P2" -> VP2(r)
+                [] r.e = "P3" -> VP3(r)
                 [] r.e = "A2" -> V2(r)
                 [] r.e = "A3" -> V3(r)
                 [] r.e = "S"  -> VS(r)
